@@ -26,4 +26,109 @@ def codecTable : List (String × String × Nat × Bool × String) := [
   ("variant", "VariantCodec", 0, false, "")
 ]
 
+/-- the schema (proto/*.proto) the `Msg` records of GtirbModel/Msg.lean were
+written against: every enum constant, every message, every field with its
+number, type, label and one-of. -/
+def expectedEnums : List (String × List (String × Int)) := [
+  ("ByteOrder", [("ByteOrder_Undefined", 0), ("BigEndian", 1), ("LittleEndian", 2)]),
+  ("DecodeMode", [("All_Default", 0), ("ARM_Thumb", 1)]),
+  ("EdgeType", [("Type_Branch", 0), ("Type_Call", 1), ("Type_Fallthrough", 2), ("Type_Return", 3), ("Type_Syscall", 4), ("Type_Sysret", 5)]),
+  ("FileFormat", [("Format_Undefined", 0), ("COFF", 1), ("ELF", 2), ("PE", 3), ("IdaProDb32", 4), ("IdaProDb64", 5), ("XCOFF", 6), ("MACHO", 7), ("RAW", 8)]),
+  ("ISA", [("ISA_Undefined", 0), ("IA32", 1), ("PPC32", 2), ("X64", 3), ("ARM", 4), ("ValidButUnsupported", 5), ("PPC64", 6), ("ARM64", 7), ("MIPS32", 8), ("MIPS64", 9)]),
+  ("SectionFlag", [("Section_Undefined", 0), ("Readable", 1), ("Writable", 2), ("Executable", 3), ("Loaded", 4), ("Initialized", 5), ("ThreadLocal", 6)]),
+  ("SymAttribute", [("GOT", 0), ("GOTPC", 1), ("GOTOFF", 2), ("GOTREL", 3), ("PLT", 4), ("PLTOFF", 5), ("PCREL", 6), ("SECREL", 7), ("TLS", 8), ("TLSGD", 9), ("TLSLD", 10), ("TLSLDM", 11), ("TLSCALL", 12), ("TLSDESC", 13), ("TPREL", 14), ("TPOFF", 15), ("DTPREL", 16), ("DTPOFF", 17), ("NTPOFF", 18), ("DTPMOD", 19), ("PAGE", 20), ("PAGEOFF", 21), ("CALL", 22), ("LO", 23), ("HI", 24), ("HIGHER", 25), ("HIGHEST", 26), ("GOTNTPOFF", 1000), ("INDNTPOFF", 1001), ("G0", 2001), ("G1", 2002), ("G2", 2003), ("G3", 2004), ("UPPER16", 2005), ("LOWER16", 2006), ("LO12", 2007), ("LO15", 2008), ("LO14", 2009), ("HI12", 2010), ("HI21", 2011), ("S", 2012), ("PG", 2013), ("NC", 2014), ("ABS", 2015), ("PREL", 2016), ("PREL31", 2017), ("TARGET1", 2018), ("TARGET2", 2019), ("SBREL", 2020), ("TLSLDO", 2021), ("HI16", 3000), ("LO16", 3001), ("GPREL", 3002), ("DISP", 3003), ("OFST", 3004), ("H", 4000), ("L", 4001), ("HA", 4002), ("HIGH", 4003), ("HIGHA", 4004), ("HIGHERA", 4005), ("HIGHESTA", 4006), ("TOCBASE", 4007), ("TOC", 4008), ("NOTOC", 4009)])
+]
+
+def expectedMessages : List (String × List (String × Nat × String × String × String)) := [
+  ("AuxData", [
+    ("type_name", 1, "string", "single", ""),
+    ("data", 2, "bytes", "single", "")]),
+  ("Block", [
+    ("offset", 1, "uint64", "single", ""),
+    ("code", 2, "message:CodeBlock", "single", "value"),
+    ("data", 3, "message:DataBlock", "single", "value")]),
+  ("ByteInterval", [
+    ("uuid", 1, "bytes", "single", ""),
+    ("blocks", 2, "message:Block", "repeated", ""),
+    ("symbolic_expressions", 3, "map<uint64,message:SymbolicExpression>", "map", ""),
+    ("has_address", 4, "bool", "single", ""),
+    ("address", 5, "uint64", "single", ""),
+    ("size", 6, "uint64", "single", ""),
+    ("contents", 7, "bytes", "single", "")]),
+  ("CFG", [
+    ("edges", 2, "message:Edge", "repeated", ""),
+    ("vertices", 3, "bytes", "repeated", "")]),
+  ("CodeBlock", [
+    ("uuid", 1, "bytes", "single", ""),
+    ("size", 3, "uint64", "single", ""),
+    ("decode_mode", 4, "enum:DecodeMode", "single", "")]),
+  ("DataBlock", [
+    ("uuid", 1, "bytes", "single", ""),
+    ("size", 3, "uint64", "single", "")]),
+  ("Edge", [
+    ("source_uuid", 1, "bytes", "single", ""),
+    ("target_uuid", 2, "bytes", "single", ""),
+    ("label", 5, "message:EdgeLabel", "single", "")]),
+  ("EdgeLabel", [
+    ("conditional", 1, "bool", "single", ""),
+    ("direct", 2, "bool", "single", ""),
+    ("type", 3, "enum:EdgeType", "single", "")]),
+  ("IR", [
+    ("uuid", 1, "bytes", "single", ""),
+    ("modules", 3, "message:Module", "repeated", ""),
+    ("aux_data", 5, "map<string,message:AuxData>", "map", ""),
+    ("version", 6, "uint32", "single", ""),
+    ("cfg", 7, "message:CFG", "single", "")]),
+  ("Module", [
+    ("uuid", 1, "bytes", "single", ""),
+    ("binary_path", 2, "string", "single", ""),
+    ("preferred_addr", 3, "uint64", "single", ""),
+    ("rebase_delta", 4, "int64", "single", ""),
+    ("file_format", 5, "enum:FileFormat", "single", ""),
+    ("isa", 6, "enum:ISA", "single", ""),
+    ("name", 7, "string", "single", ""),
+    ("symbols", 9, "message:Symbol", "repeated", ""),
+    ("sections", 12, "message:Section", "repeated", ""),
+    ("proxies", 16, "message:ProxyBlock", "repeated", ""),
+    ("aux_data", 17, "map<string,message:AuxData>", "map", ""),
+    ("entry_point", 18, "bytes", "single", ""),
+    ("byte_order", 19, "enum:ByteOrder", "single", "")]),
+  ("Offset", [
+    ("element_id", 1, "bytes", "single", ""),
+    ("displacement", 2, "uint64", "single", "")]),
+  ("ProxyBlock", [
+    ("uuid", 1, "bytes", "single", "")]),
+  ("Section", [
+    ("uuid", 1, "bytes", "single", ""),
+    ("name", 2, "string", "single", ""),
+    ("byte_intervals", 5, "message:ByteInterval", "repeated", ""),
+    ("section_flags", 6, "enum:SectionFlag", "repeated", "")]),
+  ("SymAddrAddr", [
+    ("scale", 1, "int64", "single", ""),
+    ("offset", 2, "int64", "single", ""),
+    ("symbol1_uuid", 3, "bytes", "single", ""),
+    ("symbol2_uuid", 4, "bytes", "single", "")]),
+  ("SymAddrConst", [
+    ("offset", 1, "int64", "single", ""),
+    ("symbol_uuid", 2, "bytes", "single", "")]),
+  ("SymStackConst", [
+    ("offset", 1, "int32", "single", ""),
+    ("symbol_uuid", 2, "bytes", "single", "")]),
+  ("Symbol", [
+    ("uuid", 1, "bytes", "single", ""),
+    ("value", 2, "uint64", "single", "optional_payload"),
+    ("name", 3, "string", "single", ""),
+    ("referent_uuid", 5, "bytes", "single", "optional_payload"),
+    ("at_end", 6, "bool", "single", "")]),
+  ("SymbolicExpression", [
+    ("addr_const", 2, "message:SymAddrConst", "single", "value"),
+    ("addr_addr", 3, "message:SymAddrAddr", "single", "value"),
+    ("attribute_flags", 4, "enum:SymAttribute", "repeated", "")])
+]
+
+
+/-- Python Enum class -> schema enum it mirrors -/
+def enumMirrors : List String :=
+  ["FileFormat", "ISA", "ByteOrder", "SectionFlag", "DecodeMode", "EdgeType", "SymAttribute"]
+
 end Gtirb.Expected
